@@ -103,6 +103,28 @@ pub fn check_size(c: &SizeCase, st: &mut Stats) -> Result<(), String> {
             }
         }
     }
+    // a page whose pixels were switched on and off again has the bytes of a blank page and must equal both the
+    // page rebuilt from those bytes and a new page (equality is about the bytes, not about the page's past)
+    if w > 0 && h > 0 {
+        let mut p = page.clone();
+        for (x, y) in [(0u32, 0u32), (w - 1, h - 1), (w / 2, h / 2)] {
+            p.set_pixel(x, y, true);
+            p.set_pixel(x, y, false);
+        }
+        let again = catch(|| Page::from_bytes(w, h, p.as_bytes().to_vec()))
+            .map_err(|e| format!("from_bytes panicked: {e}"))?
+            .map_err(|e| format!("from_bytes rejects a page's own bytes: {e}"))?;
+        st.eval();
+        if again != p || p != page || again.as_bytes() != page.as_bytes() {
+            return Err(format!("a {w}x{h} page with pixels switched on and off again does not equal the page built from its bytes / a new page"));
+        }
+        let mut q = page.clone();
+        q.set_all_pixels(true);
+        q.set_all_pixels(false);
+        if q != page {
+            return Err(format!("a {w}x{h} page after set_all_pixels(true) and (false) does not equal a new page"));
+        }
+    }
     // a page equals the page rebuilt from its bytes
     let rebuilt = catch(|| Page::from_bytes(w, h, page.as_bytes().to_vec()))
         .map_err(|p| format!("from_bytes panicked on a page's own bytes: {p}"))?
